@@ -79,12 +79,15 @@ func (mgr *TopicManager) unsubscribe(topics []string, clientID string) error {
 	mgr.Lock()
 	defer mgr.Unlock()
 
+	// an invalid topic can't have been subscribed, skip it and go on with
+	// the others, as the caller removes all of them from the session.
+	var firstErr error
 	for _, t := range topics {
-		if err := mgr.remove(t, clientID); err != nil {
-			return err
+		if err := mgr.remove(t, clientID); err != nil && firstErr == nil {
+			firstErr = err
 		}
 	}
-	return nil
+	return firstErr
 }
 
 // findSubscribers is used to find all clients that subscribe a certain topic directly or use wildcard.
